@@ -17,6 +17,7 @@ hmod!(msg, "msg.rs");
 hmod!(world, "world.rs");
 hmod!(faults, "faults.rs");
 hmod!(c05_shuffle, "c05_shuffle.rs");
+hmod!(c01_hybrid, "c01_hybrid.rs");
 hmod!(c04_mac, "c04_mac.rs");
 hmod!(c07_circuits, "c07_circuits.rs");
 hmod!(c13_gateway, "c13_gateway.rs");
@@ -31,6 +32,7 @@ fn registry() -> Vec<&'static dyn Scenario> {
     let mut v: Vec<&'static dyn Scenario> = Vec::new();
     v.extend(crate::helpers::verif_h2::scenarios());
     v.extend(c05_shuffle::scenarios());
+    v.extend(c01_hybrid::scenarios());
     v.extend(c04_mac::scenarios());
     v.extend(c06_prss::scenarios());
     v.extend(c07_circuits::scenarios());
